@@ -87,10 +87,19 @@ def step (st : St) (line : String) : St × String :=
   | ["text", h] =>
     match ofHex? h with
     | some t =>
-      match DomainSet.builderFromText t with
+      match DomainSet.builderFromTextX t with
       | .ok b => ({ st with b := b, ms := none }, "ok " ++ showBuilder b)
       | .error e => ({ st with b := DomainSet.Builder.emptyText, ms := none }, "err " ++ errName e)
+      | .panic => ({ st with b := DomainSet.Builder.emptyText, ms := none }, "err panic")
     | none => (st, "bad-op")
+  | ["dlc", tg, h] =>
+    match ofHex? tg, ofHex? h with
+    | some tag, some t =>
+      match DomainSet.builderFromDlc tag t with
+      | .ok b => ({ st with b := b, ms := none }, "ok " ++ showBuilder b)
+      | .error e => ({ st with b := DomainSet.Builder.emptyText, ms := none }, "err " ++ errName e)
+      | .panic => ({ st with b := DomainSet.Builder.emptyText, ms := none }, "err panic")
+    | _, _ => (st, "bad-op")
   | ["new", dk, sk] =>
     match newDomainB dk, newSuffixB sk with
     | some d, some s => ({ st with b := ⟨d, s, [], []⟩, ms := none }, "ok")
